@@ -51,7 +51,16 @@ func Update(f *ast.File, path *yaml.Path, value interface{}) error {
 		return err
 	}
 
-	return path.ReplaceWithReader(f, bytes.NewReader(b))
+	// empty documents (e.g. after a trailing `---`) have no body to replace,
+	// ReplaceWithReader would panic on them
+	docs := &ast.File{Name: f.Name}
+	for _, doc := range f.Docs {
+		if doc.Body != nil {
+			docs.Docs = append(docs.Docs, doc)
+		}
+	}
+
+	return path.ReplaceWithReader(docs, bytes.NewReader(b))
 }
 
 // MarshalFile returns the representation of the ast.File to a byte slice.
@@ -59,7 +68,7 @@ func MarshalFile(f *ast.File, addNewLine bool) []byte {
 	docs := make([]string, 0, len(f.Docs))
 
 	for _, doc := range f.Docs {
-		docs = append(docs, doc.String())
+		docs = append(docs, documentString(doc))
 	}
 
 	if addNewLine {
@@ -67,4 +76,22 @@ func MarshalFile(f *ast.File, addNewLine bool) []byte {
 	}
 
 	return []byte(strings.Join(docs, "\n"))
+}
+
+// documentString returns the text of a document. An empty document (e.g. empty input
+// or a trailing `---`) has no body and ast.DocumentNode.String would panic.
+func documentString(doc *ast.DocumentNode) string {
+	if doc.Body != nil {
+		return doc.String()
+	}
+
+	parts := []string{}
+	if doc.Start != nil {
+		parts = append(parts, doc.Start.Value)
+	}
+	if doc.End != nil {
+		parts = append(parts, doc.End.Value)
+	}
+
+	return strings.Join(parts, "\n")
 }
